@@ -485,6 +485,43 @@ def abi_names(fb):
     return _memo(fb, 'abi_names', find)
 
 
+def segment_paths_used(fb):
+    """{crate: the absolute-path string constant that reaches ShmWriter::new (daemon) / new_with_path (Rust client)}"""
+    def find():
+        used = {}
+
+        def path_constants(q, ef):
+            out = set()
+            work = list(ef['args'][:1]) + [x for x in (ef.get('pointees') or [])[:1] if x is not None]
+            seen = set()
+            for _ in range(100):
+                if not work:
+                    break
+                v = work.pop()
+                if v in seen:
+                    continue
+                seen.add(v)
+                for x in psi.walk(v):
+                    if x[0] == 'c' and isinstance(x[1], tuple) and x[1][0] == 's' and x[1][1].startswith('/'):
+                        out.add(x[1][1].rstrip('\0'))
+                    if x[0] == 't' and x[1] == 'call' and isinstance(x[2][1], int) and x[2][1] < len(q.effects) and q.effects[x[2][1]]['kind'] == 'call':
+                        e2 = q.effects[x[2][1]]
+                        work += list(e2['args']) + [y for y in (e2.get('pointees') or []) if y is not None]
+            return out
+        for crate, callee_suffix in ((DAEMON, 'ShmWriter::new'), (CLIENT, 'new_with_path')):
+            for b in fb.bodies(crate):
+                if b.defkind == 'Closure' or not reaches_call(fb, b, lambda nm, cs=callee_suffix: nm.endswith(cs)):
+                    continue
+                eng_w = mk_engine(fb, no_inline=lambda x, cr=crate, cs=callee_suffix: x.crate.name != cr or x.path.endswith(cs))
+                for q in eng_w.run(b):
+                    for ef in q.effects:
+                        if ef['kind'] == 'call' and ef['callee'].endswith(callee_suffix):
+                            for s_ in path_constants(q, ef):
+                                used.setdefault(crate, set()).add(s_)
+        return {k: (sorted(v)[0] if len(v) == 1 else 'several: %s' % sorted(v)) for k, v in used.items()}
+    return _memo(fb, 'segment_paths_used', find)
+
+
 _CALLERS = [None, None]
 
 
